@@ -111,7 +111,8 @@ void Lexer::lex()
     tree_->addToken(SyntaxToken(nullptr));
 
     // Line and column...
-    tree_->relayLineDirective(0, 1, tree_->filePath());
+    std::string curFilePath = tree_->filePath();
+    tree_->relayLineDirective(0, 1, curFilePath);
     tree_->relayLineStart(0);
     std::vector<std::pair<unsigned int, unsigned int>> expansions;
     unsigned int curExpansionIdx = 0;
@@ -201,8 +202,13 @@ LexEntry:
                     if (!tk.isAtStartOfLine()
                             && tk.isKind(SyntaxKind::StringLiteralToken)) {
                         auto fileName = tree_->findOrInsertStringLiteral(tk.string_->c_str(), tk.string_->size());
-                        tree_->relayLineDirective(offset, lineno, fileName->c_str());
+                        curFilePath = fileName->c_str();
+                        tree_->relayLineDirective(offset, lineno, curFilePath);
                         yylex(&tk);
+                    }
+                    else {
+                        // A line directive without a file name keeps the current one (6.10.4-3).
+                        tree_->relayLineDirective(offset, lineno, curFilePath);
                     }
                 }
 
